@@ -140,6 +140,13 @@ def parse_unit(text, fname):
     return segs
 
 
+def moved_here(k, e2r, ne):
+    """the annotation's neighbours in the template did not both survive next to each other"""
+    if 0 < k < ne:
+        return not ((k - 1) in e2r and k in e2r and e2r[k] == e2r[k - 1] + 1)
+    return False
+
+
 def transplant(region, real_text):
     """put the region's annotations onto `real_text` (the rewritten repository text), by token alignment"""
     items = region.items()
@@ -205,6 +212,16 @@ def transplant(region, real_text):
                 if rt and rt[-1].text == "}":
                     pos = rt[-1].pos
             moved += 1
+        if kind == "line" and (moved_here(k, e2r, ne)):
+            # a statement-level annotation that lost its exact anchor is snapped forward to a statement boundary
+            # (after `;` `{` `}`, or before `{` `}`), never left in the middle of an expression
+            j = 0
+            while j < len(rt) and rt[j].pos < pos:
+                j += 1
+            while j < len(rt) and not (j == 0 or rt[j - 1].text in (";", "{", "}") or rt[j].text in ("{", "}")):
+                j += 1
+            if j < len(rt):
+                pos = rt[j].pos
         inserts.setdefault(pos, []).append((text, kind))
     out = []
     last = 0
